@@ -390,16 +390,25 @@ fn part_cli(args: &Args, rep: &Reporter) -> J {
                 dst.push_str(CLI_ITEMS[*it]);
                 dst.push('\n');
             }
+            // layout 1: the two item files live in a second directory matched by a second pattern, under names
+            // that differ only in letter case (two files on a case-sensitive file system)
+            let layouts: &[usize] = if !a.is_empty() && !z.is_empty() && (!args.quick() || place == 2) { &[0, 1] } else { &[0] };
+            for &layout in layouts {
+            let (a, z) = (a.clone(), z.clone());
+            let (na, nz) = if layout == 0 { ("schema/a.graphql", "schema/z.graphql") } else { ("schema/types/Ext.graphql", "schema/types/ext.graphql") };
             let mut schema = vec![("schema/m.graphql".to_string(), CLI_BASE.to_string())];
             if !a.is_empty() {
-                schema.push(("schema/a.graphql".to_string(), a));
+                schema.push((na.to_string(), a));
             }
             if !z.is_empty() {
-                schema.push(("schema/z.graphql".to_string(), z));
+                schema.push((nz.to_string(), z));
             }
             let mut p = CProj::new(schema, vec![("src/q.graphql".to_string(), "query Q { a t { id } }\n".to_string())]);
+            if layout == 1 {
+                p.schema_globs = vec!["./schema/*.graphql".into(), "./schema/types/*.graphql".into()];
+            }
             p.extra_generate = "      type:\n        scalarTypes:\n          Date: string\n".into();
-            let case = |extra: J| json!({"part": "cli", "items": seq.iter().map(|i| CLI_ITEMS[*i]).collect::<Vec<_>>(), "placement": place, "project": p.to_json(), "detail": extra});
+            let case = |extra: J| json!({"part": "cli", "layout": layout, "items": seq.iter().map(|i| CLI_ITEMS[*i]).collect::<Vec<_>>(), "placement": place, "project": p.to_json(), "detail": extra});
             runs.fetch_add(1, Ordering::Relaxed);
             match run_and_compare(&p, "c11") {
                 Err(pn) => rep.report(Violation { key: format!("cli.library_panic@{}", pn.key()), what: format!("library entry points panic at {}: {}", pn.site, pn.msg), case: case(json!({})) }),
@@ -420,10 +429,11 @@ fn part_cli(args: &Args, rep: &Reporter) -> J {
                     }
                 }
             }
+            }
         }
     });
     crate::cli::cleanup("c11");
-    json!({"item_alphabet": n, "max_items": depth, "placements": "every assignment of items to a file before / after the base file (length 3: all-before, all-after, two alternating)", "cli_runs": runs.load(Ordering::Relaxed), "accepted_and_all_outputs_compared": accepted.load(Ordering::Relaxed), "files_compared_bytewise": files.load(Ordering::Relaxed)})
+    json!({"item_alphabet": n, "max_items": depth, "placements": "every assignment of items to a file before / after the base file (length 3: all-before, all-after, two alternating)", "layouts": "one pattern, files a / z beside the base; for split placements also two patterns with the item files in a second directory under names differing only in letter case", "cli_runs": runs.load(Ordering::Relaxed), "accepted_and_all_outputs_compared": accepted.load(Ordering::Relaxed), "files_compared_bytewise": files.load(Ordering::Relaxed)})
 }
 
 pub fn run(args: &Args) -> i32 {
